@@ -123,6 +123,10 @@ private:
             }
         }
 
+        // Restore the shift of the problem, so that the operator is unchanged
+        // when compute() returns (it may be called again, or used by another solver)
+        m_op.set_shift(m_sigmar, m_sigmai);
+
         Base::sort_ritzpair(sort_rule);
     }
 
